@@ -23,6 +23,8 @@ type worldVariant struct {
 	DB      bool
 	Hydrate bool
 	Short   bool
+	// Retired: a second revocation handler for a retired token family is registered in front of the provider's own
+	Retired bool
 }
 
 func (v worldVariant) String() string {
@@ -41,15 +43,18 @@ func (v worldVariant) String() string {
 	if v.Short {
 		s += " short-lifetimes"
 	}
+	if v.Retired {
+		s += " two-revocation-handlers"
+	}
 	return s
 }
 
 func variant(i int) worldVariant {
-	return worldVariant{JWT: i%2 == 1, Refresh: []string{"default", "none", "custom"}[(i/2)%3], DB: (i/6)%3 == 2, Hydrate: (i/6)%3 == 2 && (i/18)%2 == 0, Short: (i/18)%2 == 1}
+	return worldVariant{JWT: i%2 == 1, Refresh: []string{"default", "none", "custom"}[(i/2)%3], DB: (i/6)%3 == 2, Hydrate: (i/6)%3 == 2 && (i/18)%2 == 0, Short: (i/18)%2 == 1, Retired: (i/4)%3 == 1}
 }
 
 func (v worldVariant) build(extra func(*fosite.Config)) *world.World {
-	return world.New(world.Opts{JWTAccess: v.JWT, Mode: world.Mode{DB: v.DB, Hydrate: v.Hydrate}, Cfg: func(c *fosite.Config) {
+	return world.New(world.Opts{JWTAccess: v.JWT, Mode: world.Mode{DB: v.DB, Hydrate: v.Hydrate}, RetiredRevoker: v.Retired, Cfg: func(c *fosite.Config) {
 		switch v.Refresh {
 		case "none":
 			c.RefreshTokenScopes = []string{}
